@@ -22,6 +22,23 @@
 // "untracked"; and, for a site tracked through X.Add, the lock whose RLock() call
 // precedes that Add in the same function (the registration guard), if any.
 //
+// For a site registered by an explicit X.Add(n) (not X.Go) the inventory also says
+// how many Done calls the goroutine owes (n divided by the number of `go` statements
+// that share the Add; 1 when n is not a literal) and whether that many X.Done() calls
+// are reached on EVERY path of the code the goroutine runs (gs_done):
+//
+//	DoneEvery  counting, over the top-level statements of the body in order and stopping at
+//	           the first statement that contains a `return`: `defer X.Done()`, `X.Done()`,
+//	           `defer func() { ...X.Done()... }()`, and calls of functions of the same package
+//	           directory whose own body is DoneEvery (with their count), gives at least the
+//	           number owed
+//	DoneSome   fewer are guaranteed, and a path is exhibited: a `return` in a statement that
+//	           itself contains no Done, or the end of a body whose only Done calls are the
+//	           unconditional ones counted
+//	(abort)    fewer are guaranteed but Done calls sit inside conditionals / loops, or the body
+//	           of a named goroutine function is not in the package directory: not classified
+//	DoneNA     the site is not registered by an explicit Add
+//
 // Anything else aborts: a `go` statement whose operand is not a call of an
 // identifier, selector or literal; a .Go( call whose receiver is not a declared
 // sync.WaitGroup or whose argument is not a literal / identifier / selector; a
@@ -47,13 +64,21 @@ var grPackages = []string{
 }
 
 type grSite struct {
-	file, fn         string
-	idx, line        int
-	kind             string // KGo | KWgGo
-	callee           string
-	bodyLo, bodyHi   int
-	track            string
-	guard            string // lock whose RLock() precedes the X.Add(n) the site is tracked by ("" = none)
+	file, fn       string
+	idx, line      int
+	kind           string // KGo | KWgGo
+	callee         string
+	bodyLo, bodyHi int
+	track          string
+	guard          string // lock whose RLock() precedes the X.Add(n) the site is tracked by ("" = none)
+	need           int    // Done calls this goroutine owes to the WaitGroup (Add argument / sites sharing the Add); 0 = not applicable
+	done           string // DoneEvery | DoneSome | DoneNA
+	// scratch for the Done analysis
+	addPos  token.Pos
+	addArg  ast.Expr
+	blk     *ast.BlockStmt
+	blkDecl *ast.FuncDecl
+	goPos   token.Pos
 }
 
 func grPos(n ast.Node) string { return fset.Position(n.Pos()).String() }
@@ -236,20 +261,24 @@ func genGoroutines() {
 	b.WriteString("   Inventory of goroutine start sites (`go` statements and sync.WaitGroup.Go calls) of the\n")
 	b.WriteString("   components property C14 speaks about. *)\n")
 	b.WriteString("From Coq Require Import String List NArith.\nImport ListNotations.\nLocal Open Scope string_scope.\nLocal Open Scope N_scope.\n\n")
-	b.WriteString("Inductive gkind := KGo | KWgGo.\n\n")
+	b.WriteString("Inductive gkind := KGo | KWgGo.\n")
+	b.WriteString("(* is the number of Done calls the goroutine owes to its WaitGroup reached on every path of the code it runs? *)\n")
+	b.WriteString("Inductive gdone := DoneEvery | DoneSome | DoneNA.\n\n")
 	b.WriteString("Record gsite := {\n  gs_file : string;    (* file, relative to the repository root *)\n  gs_func : string;    (* enclosing top-level function (Type.method for methods) *)\n")
 	b.WriteString("  gs_idx : nat;        (* ordinal of the site within that function *)\n  gs_line : N;\n  gs_kind : gkind;\n  gs_callee : string;  (* function started; \"\" for a function literal *)\n")
 	b.WriteString("  gs_body_lo : N;      (* line range of the code the goroutine runs; 0 0 = declared elsewhere *)\n  gs_body_hi : N;\n")
 	b.WriteString("  gs_track : string;   (* WaitGroup the site is registered with, or \"untracked\" *)\n")
-	b.WriteString("  gs_guard : string    (* lock whose RLock() precedes that registration in the same function, or \"\" *)\n}.\n\n")
+	b.WriteString("  gs_guard : string;   (* lock whose RLock() precedes that registration in the same function, or \"\" *)\n")
+	b.WriteString("  gs_need : nat;       (* Done calls owed: the Add argument divided by the go statements sharing it; 0 = not registered by Add *)\n")
+	b.WriteString("  gs_done : gdone      (* are that many Done calls reached on every path? DoneNA = not registered by an explicit Add *)\n}.\n\n")
 	b.WriteString("Definition sites : list gsite := [\n")
 	for i, s := range sites {
 		sep := ";"
 		if i == len(sites)-1 {
 			sep = ""
 		}
-		fmt.Fprintf(&b, "  {| gs_file := %q; gs_func := %q; gs_idx := %d; gs_line := %d; gs_kind := %s; gs_callee := %q; gs_body_lo := %d; gs_body_hi := %d; gs_track := %q; gs_guard := %q |}%s\n",
-			s.file, s.fn, s.idx, s.line, s.kind, s.callee, s.bodyLo, s.bodyHi, s.track, s.guard, sep)
+		fmt.Fprintf(&b, "  {| gs_file := %q; gs_func := %q; gs_idx := %d; gs_line := %d; gs_kind := %s; gs_callee := %q; gs_body_lo := %d; gs_body_hi := %d; gs_track := %q; gs_guard := %q; gs_need := %d; gs_done := %s |}%s\n",
+			s.file, s.fn, s.idx, s.line, s.kind, s.callee, s.bodyLo, s.bodyHi, s.track, s.guard, s.need, s.done, sep)
 	}
 	b.WriteString("].\n")
 	write("Goroutines.v", b.String())
@@ -281,9 +310,13 @@ func grScanFile(rel string, f *ast.File, wgs map[string]bool, decls map[string][
 		fname := grFuncName(fd)
 		idx := 0
 		var walk func(n ast.Node, fn *ast.BlockStmt)
+		var lastBlk *ast.BlockStmt
+		var lastDecl *ast.FuncDecl
 		body := func(callee ast.Expr) (string, int, int) {
+			lastBlk, lastDecl = nil, nil
 			switch c := callee.(type) {
 			case *ast.FuncLit:
+				lastBlk, lastDecl = c.Body, fd
 				return "", grLine(c.Pos()), grLine(c.End())
 			case *ast.Ident, *ast.SelectorExpr:
 				name := grExpr(c)
@@ -306,6 +339,7 @@ func grScanFile(rel string, f *ast.File, wgs map[string]bool, decls map[string][
 					}
 				}
 				if len(cands) == 1 {
+					lastBlk, lastDecl = cands[0].Body, cands[0]
 					return name, grLine(cands[0].Pos()), grLine(cands[0].End())
 				}
 				// declared elsewhere (another package), or ambiguous: no body range
@@ -317,7 +351,9 @@ func grScanFile(rel string, f *ast.File, wgs map[string]bool, decls map[string][
 		// nearest preceding X.Add(n) on a declared WaitGroup in the same function body, and the lock whose
 		// RLock() call statement precedes that Add in the same function (the `wgLk.RLock(); if closed {...};
 		// wg.Add(1); wgLk.RUnlock()` registration guard), if any
+		var lastAdd *ast.CallExpr
 		tracked := func(fn *ast.BlockStmt, at token.Pos) (string, string) {
+			lastAdd = nil
 			best, bestPos := "untracked", token.NoPos
 			type lk struct {
 				name string
@@ -337,6 +373,7 @@ func grScanFile(rel string, f *ast.File, wgs map[string]bool, decls map[string][
 							x := grExpr(sel.X)
 							if sel.Sel.Name == "Add" && len(call.Args) == 1 && x != "" && wgs[grLast(x)] && call.Pos() < at && call.Pos() > bestPos {
 								best, bestPos = x, call.Pos()
+								lastAdd = call
 							}
 							if sel.Sel.Name == "RLock" && len(call.Args) == 0 && x != "" {
 								rlocks = append(rlocks, lk{x, call.Pos()})
@@ -367,9 +404,14 @@ func grScanFile(rel string, f *ast.File, wgs map[string]bool, decls map[string][
 					}
 				case *ast.GoStmt:
 					callee, lo, hi := body(x.Call.Fun)
+					blk, blkDecl := lastBlk, lastDecl
 					tr, gd := tracked(fn, x.Pos())
-					out = append(out, grSite{file: rel, fn: fname, idx: idx, line: grLine(x.Pos()), kind: "KGo", callee: callee,
-						bodyLo: lo, bodyHi: hi, track: tr, guard: gd})
+					st := grSite{file: rel, fn: fname, idx: idx, line: grLine(x.Pos()), kind: "KGo", callee: callee,
+						bodyLo: lo, bodyHi: hi, track: tr, guard: gd, done: "DoneNA", blk: blk, blkDecl: blkDecl, goPos: x.Pos()}
+					if lastAdd != nil {
+						st.addPos, st.addArg = lastAdd.Pos(), lastAdd.Args[0]
+					}
+					out = append(out, st)
 					idx++
 					// the operand may itself contain start sites (a literal's body)
 					if lit, ok := x.Call.Fun.(*ast.FuncLit); ok {
@@ -393,7 +435,7 @@ func grScanFile(rel string, f *ast.File, wgs map[string]bool, decls map[string][
 					}
 					callee, lo, hi := body(x.Args[0])
 					out = append(out, grSite{file: rel, fn: fname, idx: idx, line: grLine(x.Pos()), kind: "KWgGo", callee: callee,
-						bodyLo: lo, bodyHi: hi, track: recv})
+						bodyLo: lo, bodyHi: hi, track: recv, done: "DoneNA"})
 					idx++
 					if lit, ok := x.Args[0].(*ast.FuncLit); ok {
 						walk(lit.Body, lit.Body)
@@ -403,8 +445,210 @@ func grScanFile(rel string, f *ast.File, wgs map[string]bool, decls map[string][
 				return true
 			})
 		}
+		first := len(out)
 		walk(fd.Body, fd.Body)
 		_ = declFile
+		grDoneAnalysis(out[first:], decls, fd)
 	}
 	return out
+}
+
+// ---- is Done reached on every path? ---------------------------------------------------------------
+
+func grIsDoneCall(e ast.Expr, wg string) bool {
+	call, ok := e.(*ast.CallExpr)
+	if !ok || len(call.Args) != 0 {
+		return false
+	}
+	sel, ok := call.Fun.(*ast.SelectorExpr)
+	if !ok || sel.Sel.Name != "Done" {
+		return false
+	}
+	x := grExpr(sel.X)
+	return x != "" && grLast(x) == wg
+}
+
+// grContains reports whether n contains, outside nested function literals, a node accepted by f.
+func grContains(n ast.Node, f func(ast.Node) bool) bool {
+	found := false
+	ast.Inspect(n, func(m ast.Node) bool {
+		if m == nil || found {
+			return false
+		}
+		if _, ok := m.(*ast.FuncLit); ok {
+			return false
+		}
+		if f(m) {
+			found = true
+			return false
+		}
+		return true
+	})
+	return found
+}
+
+func grHasReturn(n ast.Node) bool {
+	return grContains(n, func(m ast.Node) bool {
+		switch x := m.(type) {
+		case *ast.ReturnStmt:
+			return true
+		case *ast.BranchStmt:
+			return x.Tok == token.GOTO
+		case *ast.CallExpr:
+			s := grExpr(x.Fun)
+			return s == "runtime.Goexit" || s == "os.Exit"
+		}
+		return false
+	})
+}
+
+func grHasDone(n ast.Node, wg string) bool {
+	return grContains(n, func(m ast.Node) bool {
+		e, ok := m.(ast.Expr)
+		return ok && grIsDoneCall(e, wg)
+	})
+}
+
+type grDoneResult struct {
+	n       int       // Done calls guaranteed on every path
+	escape  token.Pos // a return reached with only n Done calls behind it (NoPos: none)
+	unclear string    // non-empty: Done calls the counting cannot attribute to every path
+}
+
+// grResolve finds the declaration of a function called as f(...) or x.m(...) in the package directory.
+func grResolve(fun ast.Expr, decls map[string][]*ast.FuncDecl, encl *ast.FuncDecl) *ast.FuncDecl {
+	name := grExpr(fun)
+	if name == "" {
+		return nil
+	}
+	cands := decls[grLast(name)]
+	if len(cands) > 1 && encl != nil {
+		if typ := grBaseType(encl, fun); typ != "" {
+			var keep []*ast.FuncDecl
+			for _, cd := range cands {
+				if grFuncName(cd) == typ+"."+cd.Name.Name {
+					keep = append(keep, cd)
+				}
+			}
+			cands = keep
+		}
+	}
+	if len(cands) == 1 {
+		return cands[0]
+	}
+	return nil
+}
+
+func grCountDone(blk *ast.BlockStmt, wg string, decls map[string][]*ast.FuncDecl, encl *ast.FuncDecl, depth int) grDoneResult {
+	var r grDoneResult
+	if blk == nil {
+		r.unclear = "no body"
+		return r
+	}
+	callee := func(call *ast.CallExpr) (int, bool) {
+		if depth >= 3 {
+			return 0, false
+		}
+		fd := grResolve(call.Fun, decls, encl)
+		if fd == nil || fd.Body == nil {
+			return 0, false
+		}
+		if !grHasDone(fd.Body, wg) {
+			return 0, true
+		}
+		sub := grCountDone(fd.Body, wg, decls, fd, depth+1)
+		if sub.unclear != "" {
+			r.unclear = sub.unclear
+		}
+		return sub.n, true
+	}
+	for _, st := range blk.List {
+		switch x := st.(type) {
+		case *ast.DeferStmt:
+			if grIsDoneCall(x.Call, wg) {
+				r.n++
+				continue
+			}
+			if lit, ok := x.Call.Fun.(*ast.FuncLit); ok {
+				if grHasDone(lit.Body, wg) {
+					sub := grCountDone(lit.Body, wg, decls, encl, depth+1)
+					r.n += sub.n
+					if sub.unclear != "" || sub.escape != token.NoPos {
+						r.unclear = "Done inside a deferred literal at " + fset.Position(x.Pos()).String()
+					}
+				}
+				continue
+			}
+			if k, ok := callee(x.Call); ok {
+				r.n += k
+			}
+			continue
+		case *ast.ExprStmt:
+			if grIsDoneCall(x.X, wg) {
+				r.n++
+				continue
+			}
+			if call, ok := x.X.(*ast.CallExpr); ok {
+				if _, isLit := call.Fun.(*ast.FuncLit); !isLit {
+					if k, ok := callee(call); ok {
+						r.n += k
+						continue
+					}
+				}
+			}
+		}
+		if grHasReturn(st) {
+			if grHasDone(st, wg) {
+				r.unclear = "Done and return in the same statement at " + fset.Position(st.Pos()).String()
+			}
+			r.escape = st.Pos()
+			return r
+		}
+		if grHasDone(st, wg) {
+			r.unclear = "Done inside a conditional / loop at " + fset.Position(st.Pos()).String()
+		}
+	}
+	return r
+}
+
+// grDoneAnalysis fills need / done of the sites of one function declaration.
+func grDoneAnalysis(sites []grSite, decls map[string][]*ast.FuncDecl, fd *ast.FuncDecl) {
+	share := map[token.Pos]int{}
+	for _, s := range sites {
+		if s.kind == "KGo" && s.track != "untracked" {
+			share[s.addPos]++
+		}
+	}
+	for i := range sites {
+		s := &sites[i]
+		if s.kind != "KGo" || s.track == "untracked" {
+			continue
+		}
+		s.need = 1
+		if lit, ok := s.addArg.(*ast.BasicLit); ok && lit.Kind == token.INT {
+			var l int
+			fmt.Sscanf(lit.Value, "%d", &l)
+			k := share[s.addPos]
+			if l <= 0 || l%k != 0 {
+				die("goroutines: %s: %s.Add(%d) is shared by %d go statements: cannot tell how many Done calls each owes", fset.Position(s.goPos), s.track, l, k)
+			}
+			s.need = l / k
+		}
+		if s.blk == nil {
+			die("goroutines: %s: the goroutine registered with %s runs %q, whose body is not in the package directory: cannot tell whether Done is reached on every path", fset.Position(s.goPos), s.track, s.callee)
+		}
+		r := grCountDone(s.blk, grLast(s.track), decls, s.blkDecl, 0)
+		switch {
+		case r.n >= s.need:
+			s.done = "DoneEvery"
+		case r.unclear != "":
+			die("goroutines: %s: the goroutine registered with %s owes %d Done call(s), %d are guaranteed, and the rest cannot be classified: %s", fset.Position(s.goPos), s.track, s.need, r.n, r.unclear)
+		default:
+			s.done = "DoneSome"
+			if r.escape != token.NoPos {
+				fmt.Fprintf(os.Stderr, "go2coq: goroutines: %s: goroutine registered with %s: a path through the return at %s reaches only %d of %d Done call(s)\n",
+					fset.Position(s.goPos), s.track, fset.Position(r.escape), r.n, s.need)
+			}
+		}
+	}
 }
